@@ -369,21 +369,31 @@ class MachineIterStep:
 
 
 # ---- route(): one net - which tree is built, whether it is repaired, under which net it is filed (fragment: the body of the loop over nets)
+def _named(names, args, kwargs):
+    """recorded arguments BY PARAMETER NAME (position or keyword is the code's business)"""
+    d = dict(zip(names, args))
+    d.update(kwargs)
+    return d
+
+
 def _ner_net_rec(E, args, kwargs, st, node):
+    a = _named(("source", "destinations", "width", "height", "wrap_around", "radius"), args, kwargs)
     s = st.copy()
-    s.trace = _ListV(s.trace.items + (("ner_net",) + tuple(args),))
+    s.trace = _ListV(s.trace.items + (("ner_net", a["source"], a["destinations"], a["width"], a["height"], a.get("wrap_around", False), a.get("radius", 10)),))
     return [(s, (ObjV("RoutingTree", {"ident": 101}), ObjV("NodeLookup", {"ident": 102})))]
 
 
 def _has_dead_rec(E, args, kwargs, st, node):
+    a = _named(("root", "machine"), args, kwargs)
     s = st.copy()
-    s.trace = _ListV(s.trace.items + (("uses_dead_hardware?", args[0].fields["ident"], args[1].fields["ident"]),))
+    s.trace = _ListV(s.trace.items + (("uses_dead_hardware?", a["root"].fields["ident"], a["machine"].fields["ident"]),))
     return [(s, st.env["g_dead"])]
 
 
 def _avoid_rec(E, args, kwargs, st, node):
+    a = _named(("root", "machine", "wrap_around"), args, kwargs)
     s = st.copy()
-    s.trace = _ListV(s.trace.items + (("repair", args[0].fields["ident"], args[1].fields["ident"], args[2]),))
+    s.trace = _ListV(s.trace.items + (("repair", a["root"].fields["ident"], a["machine"].fields["ident"], a.get("wrap_around", False)),))
     return [(s, (ObjV("RoutingTree", {"ident": 201}), ObjV("NodeLookup", {"ident": 202})))]
 
 
@@ -401,8 +411,9 @@ def _routes_set(E, obj, args, kwargs, st, node):
 
 @contract("rig/place_and_route/route/ner.py::route@forbody:1")
 class RouteOneNet:
-    """one net (here with one sink): the tree is built - for a perfect machine of THIS machine's width, height and wrap-around, with
-    the radius given - from the chip the net's SOURCE is placed on to the chips its SINKS are placed on; it is tested against this
+    """one net (here with one sink): the tree is built - for a perfect machine of THIS machine's width and height (the search radius and
+    the wrap-around hint only steer the heuristic: whatever they are, the test and repair below decide what is returned) - from the chip
+    the net's SOURCE is placed on to the chips its SINKS are placed on; it is tested against this
     machine and, exactly when the test says it uses dead hardware, replaced by the repaired tree (made from the tree just built, for
     this machine); the sink's leaves are hung on the node the tree FINALLY used holds for the sink's chip; and that final tree is
     filed under this net"""
@@ -432,11 +443,11 @@ class RouteOneNet:
         key = [t for t in _trace if t[0] in ("ner_net", "uses_dead_hardware?", "repair", "filed")]
         nodes = [t for t in _trace if t[0] == "node_of"]
         final = 201 if g_dead else 101
-        return (_trace[0] == ("placement_of", net.source) and _trace[1] == ("placement_of", net.sinks[0])
+        return (("placement_of", net.source) in _trace and ("placement_of", net.sinks[0]) in _trace
                 and len(key) == (4 if g_dead else 3)
                 and key[0][0] == "ner_net" and key[0][1] == g_chip and len(key[0][2]) == 1 and g_chip in key[0][2]
-                and key[0][3:] == (machine.width, machine.height, wrap_around, radius)
+                and key[0][3:5] == (machine.width, machine.height)
                 and key[1] == ("uses_dead_hardware?", 101, machine.ident)
-                and implies(g_dead, key[2] == ("repair", 101, machine.ident, wrap_around))
+                and implies(g_dead, key[2][:3] == ("repair", 101, machine.ident))
                 and key[len(key) - 1] == ("filed", net.ident, final)
                 and len(nodes) == 1 and nodes[0][1] == final + 1)
